@@ -531,6 +531,15 @@ def run_concurrent(env, scn, seed=0, schedule=None, p_tick=0.15, p_idle=0.1, bud
     if schedule is None and len(net.nodes) > 1 and rng.random() < 0.34:
         a_, b_ = rng.sample(range(len(net.nodes)), 2)
         starve = {(a_, b_), (b_, a_)}
+    # another third runs under priorities (PCT, Burckhardt et al. 2010): every link gets a random priority, the deliverable link of
+    # highest priority always moves, and at two random steps the link that just moved drops below all others. A race that needs
+    # d ordering constraints is hit with probability >= 1/(n k^(d-1)) whatever the length of the run.
+    prio = None
+    if schedule is None and starve is None and rng.random() < 0.5:
+        prio = {}
+        change = {rng.randrange(1, 80) for _ in range(2)}
+        low = [0.0]
+        ndel = [0]
     while True:
         for b in boxes:
             if b.done and b.k not in done_logged:
@@ -569,8 +578,18 @@ def run_concurrent(env, scn, seed=0, schedule=None, p_tick=0.15, p_idle=0.1, bud
             else:
                 ch = None
             if ch is None:
-                pool = [o for o in opts if starve is None or (o[1], o[2]) not in starve] or opts
-                o = rng.choice(pool)
+                if prio is not None:
+                    for o in opts:
+                        if (o[0], o[1], o[2]) not in prio:
+                            prio[(o[0], o[1], o[2])] = rng.random()
+                    o = max(opts, key=lambda o: prio[(o[0], o[1], o[2])])
+                    ndel[0] += 1
+                    if ndel[0] in change:
+                        low[0] -= 1.0
+                        prio[(o[0], o[1], o[2])] = low[0]
+                else:
+                    pool = [o for o in opts if starve is None or (o[1], o[2]) not in starve] or opts
+                    o = rng.choice(pool)
                 k = o[3] if rng.random() < 0.4 else 1
                 ch = [o[0], o[1], o[2], k]
         rec.append(ch)
